@@ -64,7 +64,7 @@ def gen_world(rng, P, name):
         if conv_only and sync_ok and points[0] >= 2 and rng.random() < 0.5:
             base.listeners_ctor.remove(L)
             if not base.is_async():
-                for c in base.cbs:
+                for c in list(base.cbs) + list(scn.cbs):   # (the class is built from the family's definition)
                     if c.provider == L:       # (a late async listener on a sync machine is finding D12 of C12)
                         c.coro, c.yields, c.wrap = False, 0, ("" if c.wrap == "lazy" else c.wrap)
             pos = rng.randint(1, points[0] - 1)
@@ -125,8 +125,8 @@ def gen_world(rng, P, name):
         # plain functions stored as instance attributes are not picklable (not a property of the library)
         w.clones = [(a, b, "deepcopy", k) for (a, b, _m, k) in w.clones]
     # behaviour tables must agree on the common prefix: all members share the original's table
-    for m in w.members[1:]:
-        m.scn.acts = copy.deepcopy(base.acts)
+    for (_s, d, _m, _k) in w.clones:
+        w.members[d].scn.acts = copy.deepcopy(base.acts)
     # merge: the source runs its first k ops, then the clone is taken, then suffixes interleave
     order = []
     executed = {0: 0}
@@ -194,10 +194,7 @@ def before_prefix(lines, k):
 
 
 def check_world(w):
-    for m in w.members:
-        eng.normalize(m.scn)
-    for f in w.families:
-        eng.normalize(f.scn)
+    W.normalize_world(w)
     obs = W.run_world(w)
     models = expected(w)
     dsts = {d: (s, mech, k) for (s, d, mech, k) in w.clones}
@@ -309,6 +306,47 @@ def shrink(w, mi, kind):
     return cur
 
 
+def make_world(seed, i):
+    rng = random.Random(f"{seed}:C17:{i}")
+    P = PROFILE_ASYNC if rng.random() < 0.4 else PROFILE
+    return gen_world(rng, P, f"C17-{seed}-{i}")
+
+
+def _screen(args):
+    """thorough tier, worker process: does world `i` show any failure? (judged and reported by the parent)"""
+    seed, i = args
+    w = make_world(seed, i)
+    try:
+        fails, obs, models = check_world(w)
+    except Exception:
+        return (i, True, None, 0, 0)
+    return (i, bool(fails), scn_hash(W.world_to_json(w)) if nontrivial(w, obs) else None, len(w.members), len(w.order))
+
+
+def screen_parallel(ctx, stats, nontriv, n, budget):
+    """split `n` world indices over worker processes; returns the indices that need a closer look"""
+    import multiprocessing as mp
+    import time
+    jobs = int(os.environ.get("VERIF_JOBS", "0") or 0) or min(16, os.cpu_count() or 1)
+    bad = []
+    t0 = time.time()
+    with mp.get_context("fork").Pool(jobs) as pool:
+        for (i, failed, h, nm, nops) in pool.imap_unordered(_screen, [(ctx.seed, i) for i in range(n)], chunksize=20):
+            stats["worlds"] += 1
+            stats["members" if "members" in stats else "clones"] += nm
+            if "ops" in stats:
+                stats["ops"] += nops
+            if h:
+                nontriv.add(h)
+            if failed:
+                bad.append(i)
+            if time.time() - t0 > budget or len(bad) >= 6:
+                pool.terminate()
+                break
+    ctx.coverage["workers"] = jobs
+    return sorted(bad)
+
+
 def run(ctx):
     lean_obligations(ctx)
     ctx.coverage["rule"] = RULE
@@ -353,10 +391,16 @@ def run(ctx):
     nontriv = set()
     samples = []
     i = 0
+    todo = None
+    if ctx.tier == "thorough":
+        todo = screen_parallel(ctx, stats, nontriv, target * 6, max(30.0, ctx.left() - 90))
+        target = stats["worlds"] + len(todo)
     while stats["worlds"] < target and ctx.left() > 8 and len(ctx.violations) < 3:
-        rng = random.Random(f"{ctx.seed}:C17:{i}")
-        P = PROFILE_ASYNC if rng.random() < 0.4 else PROFILE
-        w = gen_world(rng, P, f"C17-{ctx.seed}-{i}")
+        if todo is not None:
+            if not todo:
+                break
+            i = todo.pop(0)
+        w = make_world(ctx.seed, i)
         i += 1
         try:
             fails, obs, models = check_world(w)
